@@ -223,7 +223,8 @@ void list_output_65816(
 
   bytes[0] = 0;
 
-  for (n = 0; n < count; n++)
+  // The span can be longer than one instruction (copies made by .repeat).
+  for (n = 0; n < count && (n + 1) * 3 < (int)sizeof(bytes); n++)
   {
     char temp[4];
     snprintf(temp, sizeof(temp), "%02x ", memory->read8(start + n));
